@@ -12,7 +12,7 @@ CHECKS = {
          "Every cut instant (each timestamp, each mid-point, before/after the data, expressed in the data's zone and in another) x "
          "max_days {365,None,1,5,10} x all overshoot/ignore-gap/n_days option combinations x hourly/daily/billing series x 2 zones x "
          "Series/DataFrame/NaN-edged inputs is executed against get_baseline_data/get_reporting_data and compared with a windows "
-         "reference evaluated on the input alone; complete enumeration of that finite space (exhaustive: true unless a cap is reported).",
+         "reference evaluated on the input alone; calls without any limit (end/start None) under every option combination are included; complete enumeration of that finite space (exhaustive: true unless a cap is reported).",
          "Finite stated space only; readings of the statement pinned in evidence.assumptions (DESIGN.md C20/A).",
          "DESIGN.md section 6, C20"),
  "C11": ("exploration",
@@ -23,7 +23,8 @@ CHECKS = {
          "on ~830 temperatures (-60..140F step 0.25 plus every stored/effective balance point and range limit with their float "
          "neighbours). Continuity (Lipschitz), base load between the effective balance points, monotonicity, the straight line with "
          "the stored slope (exact unsmoothed, exponential bound smoothed), non-negative exclusive loads and additivity are checked on "
-         "every curve; complete enumeration of the lattice.",
+         "every curve; every 4th (thorough: every) document is also loaded with its JSON object keys sorted / reversed, and 2.0-format documents "
+         "(from_2_0_dict, four model types x a coefficient lattice) are held to the same clauses; complete enumeration of the lattice.",
          "Lattice, not the continuum: nothing is claimed between lattice points (DESIGN.md section 7). Tolerances are ulp-scaled.",
          "DESIGN.md section 6, C11"),
  "C07": ("exploration",
@@ -41,7 +42,7 @@ CHECKS = {
          "every candidate must be an exact cover of the 3x2 (season, day type) cells, unsplit present, nothing the flags forbid or the data "
          "cannot support. B: every split layout the library can produce (quick: every 4th) loaded as a document of marker sub-models "
          "x 16 map combinations x all 731 dates of 2023-2024: model_split and the marker value must be the unique component owning the "
-         "date's cell under the model's own maps. C: real fits; the chosen split must minimise the recomputed criterion.",
+         "date's cell under the model's own maps. C: real fits, also under each of the 10 selection criteria the settings accept; the chosen split must minimise the recomputed criterion.",
          "Candidate generation is driven through the private _combinations() on the model's own prepared frame (anchored seam).",
          "DESIGN.md section 6, C13"),
  "C19": ("exploration",
@@ -57,7 +58,7 @@ CHECKS = {
          "Per family (daily, billing, hourly, hourly solar, CalTRACK hourly, plus variants that take the side-effect paths: poor-fit fits and an "
          "ignored GHI column) one fitted model is explored breadth-first over the alphabet {predict(R_i) for 5 spans x with/without usage, "
          "fit of another meter}: every state must serialise to the initial document, every transition's output must equal the same call on a "
-         "pristine copy, the data object passed must keep its fingerprint. The search closes (every operation maps every discovered state into "
+         "pristine copy, the data object passed must keep its fingerprint (also on the first call it ever sees). The same graph is explored from the model as it comes back from storage. The search closes (every operation maps every discovered state into "
          "the discovered set), so the verdict holds for histories of any length over the alphabet. Separately every constructor/from_series entry "
          "point is checked for leaving the caller's input unchanged, and handed-out / prediction frames for independence (behaviourally).",
          "deepcopy snapshots (asserted faithful on every use); hourly models get an explicit seed (to_json re-draws a private seed otherwise); "
@@ -69,13 +70,13 @@ CHECKS = {
          "spec/approved_constants.json) x alternative values (default +/- step, bounds and next floats, members/non-members, None, mistyped) x key "
          "spelling x input form (kwargs, nested dict, nested object of the declared and related classes, model constructors, update helper, "
          "attribute assignment) x developer_mode {absent, False, True}; full products over the cross-field validator groups; stored-document "
-         "round trips. Oracle: defaults == table; a developer-only leaf differing from its approved value without developer_mode is rejected "
+         "round trips; a default-built settings object of every class handed to every model constructor. Oracle: defaults == table; a developer-only leaf differing from its approved value without developer_mode is rejected "
          "(evaluated on the result for every form); valid non-developer values accepted; invalid rejected; stored settings == built settings.",
          "The approved table is the specification: a deliberate change of a default must update it. Unspecified inputs listed in evidence.assumptions.",
          "DESIGN.md section 6, C14"),
  "C18": ("exploration",
          "exhaustive products: every hour of 2023+2024 x zones x segmentation types; marker models through from_json for routing; all 64 bin-endpoint subsets x temperature lattice; all 168 hours-of-week x occupancy lookups",
-         "segment_time_series weights for every hour of a leap and a non-leap year in 4 zones x 4 segmentation types x 52 windows; weighted "
+         "segment_time_series weights for every hour of a leap and a non-leap year in 4 zones x 4 segmentation types x 52 windows, plus two-call histories (one UTC window localised to zone A, then to zone B, all ordered pairs); weighted "
          "fitting on intercept-only designs; prediction routing with marker models built through the public JSON path (segment j answers a value "
          "naming j, its bin tables and its occupancy bit); compute_temperature_bin_features for all 64 subsets of the candidate endpoints x "
          "{-40..130 step 0.5, every endpoint and its float neighbours, NaN}; hour_of_week over all 168 values incl. DST weeks; occupied/unoccupied "
@@ -85,19 +86,19 @@ CHECKS = {
  "C01": ("model_checking",
          "explicit-state BFS over {to_json->from_json, to_dict->from_dict, predict(R_i)} histories on fitted models of every family; exhaustive lattice of document-built models against a closed-form reference",
          "B: for each fitted model (daily current/legacy/developer/custom maps/poor fit, billing, hourly non-solar/solar/robust scaler/other "
-         "binning/poor fit, CalTRACK hourly) a BFS over round-trip and predict operations, where a round trip replaces the state's object by the "
+         "binning/poor fit/supplemental columns with capitals, fixed-offset zones, CalTRACK hourly) a BFS over round-trip and predict operations, where a round trip replaces the state's object by the "
          "loaded one; in every state the document, the prediction on each of 8 reporting sets (inside the range, 70-90F colder, hotter, NaN "
          "temperature; with/without usage), timezone, warnings and disqualifications must equal the freshly fitted model's; the graphs close, so "
          "the result holds for any number of round trips. A: daily/billing documents over the coefficient lattice x split layouts with mixed "
          "shapes x 7 settings profiles: loaded, round-tripped twice, predicted, and compared with refmodels/curve evaluated from the JSON alone "
-         "(exact for unsmoothed shapes, 4 ulp for smoothed).",
+         "(exact for unsmoothed shapes, 4 ulp for smoothed); every document is also loaded with its JSON keys sorted and reversed, and a dict is loaded twice and must stay unchanged.",
          "Finite set of baselines/profiles and lattice; 'same document' is JSON-value equality; deepcopy snapshots asserted faithful.",
          "DESIGN.md section 6, C01"),
  "C10": ("exploration",
          "deviation-bounded enumeration at every published threshold (span, coverage, per-month coverage, value defects) x classes x entry points; oracle = criteria evaluated independently from the input",
          "class {daily, billing, hourly} x {baseline, reporting} x fuel x entry point/temperature feed x span N in {250,328,329,330,364,365,366,367,420} x "
          "missing-day count m at floor/ceil(0.1N)+-1 x what is missing x placement; value defects (negative reading, 10xIQR spike, UTC index, off-cycle "
-         "read); per-month coverage at exactly 10% of 28/30/31-day months (hourly: by the hour); DST zones one day or more from the thresholds; empty "
+         "read); per-month coverage at exactly 10% of 28/30/31-day months (hourly: by the hour); DST zones one day or more from the thresholds (incl. zones whose clock changes at local midnight); empty "
          "columns; temperature-only reporting; NaN billing reads. The set of disqualification criteria must equal the reference's "
          "(refmodels/sufficiency.py: integers and Fractions on plain rows); warning-only conditions must be warnings.",
          "Ambiguity bands (hourly truncated day totals, hourly feeds under daily meters, closing billing read, DST +-1 day) accept both verdicts and are counted in the evidence.",
@@ -108,7 +109,7 @@ CHECKS = {
          "p in {1,2,5} through BaselineMetrics; structured series of 24-400 rows x contaminations through BaselineMetrics, ReportingMetrics (3 frequencies) "
          "and CalTRACK ModelMetrics; every dumped field is compared with its textbook formula on the finite pairs (refmodels/metrics.py, Fractions/fsum, "
          "1e-12), identities, undefined ratios; the hourly poor-fit gate at value*(1+-1e-6) on real HourlyModel objects; stored metrics of real "
-         "hourly/daily/billing fits vs predict(baseline).",
+         "hourly/daily/billing fits vs predict(baseline), incl. solar fits with irradiance gaps and a fit told to ignore the (gappy) irradiance column.",
          "Library's documented statistical conventions accepted (ddof 0, linear quantiles, PNRMSE by IQR); listed in evidence.assumptions.",
          "DESIGN.md section 6, C16"),
  "C17": ("exploration",
@@ -116,13 +117,13 @@ CHECKS = {
          "Base frames of 3/4/22/43/730 days (every branch of interpolate) x zones {UTC, Kolkata, Chicago, Sydney; Havana, Santiago keyed separately} with the "
          "23/25-hour day first/mid/last x first/last supplied hour x fuel x ghi x class x index unit; deviations at EVERY hour of the short frames. "
          "Gap-free whole-local-day index (zoneinfo arithmetic), supplied finite values bit-identical, flag == (not supplied and now present), no NaN "
-         "left unless the column was empty, first duplicate wins, caller's frame untouched.",
+         "left unless the column was empty, first duplicate (in the order supplied: also with the extra rows appended / prepended and newest-first frames) wins, caller's frame untouched.",
          "Filled values are unconstrained beyond being non-NaN; Lord Howe (30-minute DST) not enumerated.",
          "DESIGN.md section 6, C17"),
  "C06": ("exploration",
          "exhaustive product over IANA zone signature classes x every UTC-offset transition 2000-2037 (quick: 2019-2023), through the data classes and predict(); slot-level check of the clock normalisation",
          "All zones known to zoneinfo are grouped by their 2000-2037 transition list (computed from pandas' own conversion); for every transition of "
-         "every class representative, hourly frames of whole local days with the transition day in the middle / first / last, with and without "
+         "every class representative, hourly frames of whole local days with the transition day in the middle / first / last (for changes at local midnight also the day after the instant), with holes and NaN cells, with and without "
          "usage, go through HourlyReportingData and HourlyModel.predict (document-loaded model naming the zone): index identical to data.df, strictly "
          "chronological and unique in UTC, every prediction finite; feeding the clock normalisation the slot numbers shows that no row is shifted. "
          "Daily/billing: 10 daily rows / 70 days of reads around every transition of 2021 (+2027) per class x NaN-temperature / NaN-usage days "
@@ -132,11 +133,11 @@ CHECKS = {
  "C04": ("model_checking",
          "TLA+ model checked by TLC; the complete labelled state graph (-dump dot,actionlabels) is replayed edge by edge against the real classes (model <-> implementation conformance)",
          "spec/tla/Gate.tla models the gate as object x override flags x storage with actions Fit(kind, ignore), Predict(data type, timezone, ignore), Store; "
-         "TLC checks FailClosed, FitGate, StorePreserves, UnfittedNeverPredicts on all 157 reachable states. Every one of the 2802 edges is then "
+         "TLC checks FailClosed, FitGate, StorePreserves, UnfittedNeverPredicts on all reachable states (283; counts are re-read from TLC on every run). Every one of the edges (9004) is then "
          "executed on DailyModel, BillingModel and HourlyModel for every concrete realisation of the abstract baseline kinds (too short, too long, "
          "usage gaps / off-cycle read, a month of missing temperature, negative gas, weather-independent noise, threshold-placed poor fit, and "
          "combinations): the observed outcome class must be the model's and the abstraction of the real object after the call must equal the "
-         "edge's target state. A concrete dataset that does not realise its abstract kind is counted as rejected, never as a pass.",
+         "edge's target state. Whether a fit is a poor fit is decided from the model's published statistics against its own thresholds, independently of its disqualification list (the two must agree). A concrete dataset that does not realise its abstract kind is counted as rejected, never as a pass.",
          "Abstraction function alpha and the concrete kinds are the trusted bridge; listed in evidence.",
          "DESIGN.md section 6, C04"),
  "C05": ("exploration",
@@ -144,12 +145,12 @@ CHECKS = {
          "For daily, billing, hourly, hourly-solar and CalTRACK hourly models fitted on full-year baselines, each of three reporting sets (a week, a month "
          "with a DST change, a year) is predicted under every alteration of the usage column {x0.5, x7, reversed, shuffled, every 2nd NaN, first half "
          "NaN, NaN runs of 1/6/24/48 h or 1/3/10 d, all NaN, absent, all zero, negative, constant}; the prediction must equal the identity run's on "
-         "every commonly predicted timestamp, hourly rows must all be predicted, and an alteration must not turn the run into an exception.",
+         "every commonly predicted timestamp (variants: weather gaps, a 06:00 daily meter under an hourly feed, duplicated rows, a baseline with a systematic Saturday gap), hourly rows must all be predicted, and an alteration must not turn the run into an exception.",
          "Gap patterns the data class itself refuses are counted (alterations_refused_by_data_class), not judged.",
          "DESIGN.md section 6, C05"),
  "C03": ("model_checking",
          "explicit-state BFS over histories of library use, each replayed in a fresh interpreter, state = process-global fingerprint; all interleavings of 2-3 threads' public calls under a baton scheduler; concurrent processes on a shared cold/warm JIT cache",
-         "S: histories over the alphabet {fits of daily/hourly/billing meters A and B, fit+predict+round-trip, an unseeded hourly fit, building custom "
+         "S: histories over the alphabet {fits of daily/hourly/billing meters A and B, fit+predict+round-trip, refits of a used object on another meter, adaptive-weight and seed-0 hourly fits, an unseeded hourly fit, a developer-mode fit, building custom "
          "settings objects, mutating the lists a settings object hands out, np.random.seed/rand, import order} are run in fresh interpreters to "
          "depth 2 (thorough 3, last level: core fits); after every operation the process-global fingerprint (module-level containers, mutable "
          "defaults, pydantic field defaults, numpy RNG, sklearn config, numba signatures, BLAS/OMP env) identifies the state; every fit anywhere "
@@ -170,7 +171,7 @@ CHECKS = {
          "deviation-bounded enumeration of temperature feeds (hourly/half-hourly, zone offsets) x meters x entry points x NaN runs at every offset; exact per-meter-day reference",
          "Feeds {hourly, half-hourly} in zones offset from the meter by whole sampling intervals x meters {daily at midnight, daily at 06:00, hourly, "
          "billing} x entry points x a 6-day window containing a DST day x <=1 (thorough <=2) NaN runs of {1,6,11,12,13,23,24} hours at every "
-         "offset. Oracle (refmodels/tempday.py): day temperature == mean of the present readings of the meter day, missing when half or fewer are "
+         "offset, and a meter day without a reading at every interior position. Oracle (refmodels/tempday.py): day temperature == mean of the present readings of the meter day, missing when half or fewer are "
          "present, per-day present/absent counts exact (read through the class's own _set_data).",
          "Feed covers the meter span plus a day on each side.",
          "DESIGN.md section 6, C09"),
